@@ -183,6 +183,14 @@ def makeMutField (s : State) (q k : Nat) (hint : List Nat) : State :=
             | some _ => s2
             | none => execOp defaultFuel s2 (.act (.store l qi)) hint
 
+/-- `weakRaw w` — `Weak::from_raw(Weak::into_raw(w))` plus `Weak::as_ptr` on a Weak of the program —
+is an identity on the handle and touches no counter: not an action of the model, the driver treats the
+line as a no-op (the harness runs it and checks the pointer against the object's value address). -/
+def isWeakRaw (line : String) : Bool :=
+  match (line.trimAscii.toString.splitOn " ").filter (· ≠ "") with
+  | ["weakRaw", a] => a.toNat?.isSome
+  | _ => false
+
 def parseMakeMutField (line : String) : Option (Nat × Nat) :=
   match (line.trimAscii.toString.splitOn " ").filter (· ≠ "") with
   | ["makeMutField", a, b] => do some ((← a.toNat?), (← b.toNat?))
